@@ -113,7 +113,7 @@ class input_verify:
         sigs = [sign(h, k) for k in signers]
         if rng.random() < 0.5:
             sigs.append(sign(bytes(32), ks[0]))       # an unrelated (invalid here) signature
-        inp = Input(prev_txid=b'\\x11' * 32, output_n=0, keys=pubs, signatures=sigs, sigs_required=m, script_type='p2sh_multisig')
+        inp = Input(prev_txid=b'\x11' * 32, output_n=0, keys=pubs, signatures=sigs, sigs_required=m, script_type='p2sh_multisig')
         return {'self': inp, 'transaction_hash': h, 'has_f': False, 'f': {}}
 
 
@@ -155,7 +155,7 @@ def _real_tx(self):
         ins.append(i)
     outs = []
     for o in f['outputs']:
-        out = Output(value=o.fields['value'], lock_script=o.fields['lock_script'] or b'\\x51', strict=False)
+        out = Output(value=o.fields['value'], lock_script=o.fields['lock_script'] or b'\x51', strict=False)
         out.lock_script = o.fields['lock_script']
         outs.append(out)
     t = Transaction(ins, outs, locktime=f['locktime'], version=f['version'], witness_type=f.get('witness_type', 'segwit'))
@@ -165,6 +165,25 @@ def _real_tx(self):
     return t
 
 
+def _perturb_tx(env, rng):
+    """in-place edit of a field the digest commits to (as set_locktime / bumpfee / direct edits do)"""
+    t = env['self']
+    what = rng.choice(['sequence', 'locktime', 'value', 'version'])
+    if what == 'sequence' and t.inputs:
+        i = rng.randrange(len(t.inputs))
+        t.inputs[i].sequence = rng.choice([0, 1, 0xfffffffe, rng.getrandbits(32)])
+        return 'inputs[%d].sequence = %d' % (i, t.inputs[i].sequence)
+    if what == 'value' and t.outputs:
+        i = rng.randrange(len(t.outputs))
+        t.outputs[i].value = rng.randrange(0, 10 ** 9)
+        return 'outputs[%d].value = %d' % (i, t.outputs[i].value)
+    if what == 'version':
+        t.version = bytes([0, 0, 0, rng.choice([1, 2, 3])])
+        return 'version = %s' % t.version.hex()
+    t.locktime = rng.getrandbits(31)
+    return 'locktime = %d' % t.locktime
+
+
 def _segwit_case(n_in, n_out, sign_id):
     name = 'in%d-out%d-sign%d' % (n_in, n_out, sign_id)
     TxT = RecordOf(Transaction, version=Bytes(4), locktime=Int(0, 2 ** 32 - 1), witness_type=Const('segwit'),
@@ -172,14 +191,24 @@ def _segwit_case(n_in, n_out, sign_id):
 
     def requires(self, hash_type):
         x = self.inputs[sign_id]
-        return len(x.redeemscript) > 0 and x.redeemscript != b'\\x00'
+        return len(x.redeemscript) > 0 and x.redeemscript != b'\x00'
 
     def result_is(self, hash_type):
         x = self.inputs[sign_id]
         return sighash.bip143_preimage(int.from_bytes(self.version, 'big'), _abstract_inputs(self), _abstract_outputs(self), self.locktime,
                                        sign_id, x.redeemscript, x.value, hash_type)
 
+    def _sample(rng):
+        from pyvc import fuzz
+        return {'self': fuzz.sample(TxT, rng), 'hash_type': rng.choice([1, 1, 1, 1, 2, 3, 0x81, 0x82, 0x83, rng.randrange(256)])}
+
+    def pin_varstr(self, hash_type, result):
+        x = self.inputs[sign_id]
+        return result == sighash.bip143_preimage(int.from_bytes(self.version, 'big'), _abstract_inputs(self), _abstract_outputs(self),
+                                                 self.locktime, sign_id, x.redeemscript, x.value, hash_type, sighash.varstr_as_observed)
+
     d = {'params': {'self': TxT, 'hash_type': Int(0, 255)}, 'kwargs': {'sign_id': sign_id}, 'requires': requires, 'result_is': result_is,
+         'pins': {'F-varstr-00': pin_varstr}, 'perturb': _perturb_tx, 'sample': _sample,
          'prepare': lambda self, hash_type: {'self': _real_tx(self)},
          '__doc__': 'BIP143 preimage for input %d of a transaction with %d inputs and %d outputs, every hash type byte' % (sign_id, n_in, n_out)}
     cls = type(name, (), d)
@@ -187,3 +216,81 @@ def _segwit_case(n_in, n_out, sign_id):
 
 
 SEGWIT_CASES = [_segwit_case(a, b, c)._contract.key for a in (1, 2, 3) for b in (0, 1, 2, 3) for c in range(a)]
+
+
+# legacy SIGHASH_ALL preimage: Transaction.raw(sign_id, SIGHASH_ALL, 'legacy')
+
+_InRecLegacy = RecordOf(Input, prev_txid=Bytes(32), output_n=Bytes(4), sequence=Int(0, 2 ** 32 - 1), value=Int(0, MAX_MONEY),
+                        script_type=Const('sig_pubkey'), witness_type=Const('legacy'), redeemscript=Bytes(max=10000),
+                        locking_script=Bytes(max=10000), witnesses=Const([]), unlocking_script=Bytes(max=10000), index_n=Int(0, 10))
+
+
+def _legacy_case(n_in, n_out, sign_id, script_type):
+    name = 'legacy-%s-in%d-out%d-sign%d' % (script_type, n_in, n_out, sign_id)
+    TxT = RecordOf(Transaction, version=Bytes(4), locktime=Int(0, 2 ** 32 - 1), witness_type=Const('legacy'), size=Const(None),
+                   inputs=FixedList(_InRecLegacy, n_in), outputs=FixedList(_OutRec, n_out))
+
+    def init(self):
+        # representation invariant maintained by Transaction.__init__ / add_input: inputs are numbered by position
+        k = 0
+        for x in self.inputs:
+            x.index_n = k
+            x.script_type = script_type if k == sign_id else 'sig_pubkey'
+            k += 1
+
+    def script_code(self):
+        x = self.inputs[sign_id]
+        return x.redeemscript if script_type == 'p2sh_multisig' else x.locking_script
+
+    def result_is(self):
+        return sighash.legacy_all_preimage(int.from_bytes(self.version, 'big'), _abstract_inputs(self), _abstract_outputs(self), self.locktime,
+                                           sign_id, script_code(self))
+
+    def pin_varstr(self, result):
+        return result == sighash.legacy_all_preimage(int.from_bytes(self.version, 'big'), _abstract_inputs(self), _abstract_outputs(self),
+                                                     self.locktime, sign_id, script_code(self), sighash.varstr_as_observed)
+
+    d = {'params': {'self': TxT}, 'kwargs': {'sign_id': sign_id, 'hash_type': 1, 'witness_type': 'legacy'}, 'init': init,
+         'result_is': result_is, 'pins': {'F-varstr-00': pin_varstr},
+         'prepare': lambda self: {'self': _real_tx(self)},
+         '__doc__': 'legacy SIGHASH_ALL preimage for input %d (%s) of a transaction with %d inputs and %d outputs' % (sign_id, script_type, n_in, n_out)}
+    cls = type(name, (), d)
+    return contract('bitcoinlib.transactions.Transaction.raw', case=name, props=('C01',))(cls)
+
+
+LEGACY_CASES = [_legacy_case(a, b, c, st)._contract.key for a in (1, 2, 3) for b in (0, 1, 2) for c in range(a)
+                for st in ('sig_pubkey', 'p2sh_multisig')]
+
+
+def _sighash_case(tx_witness, arg_witness):
+    """Transaction.signature_hash dispatch: which preimage is hashed for which (transaction, requested) witness type"""
+    name = 'dispatch-tx_%s-arg_%s' % (tx_witness, arg_witness)
+    use_segwit = (arg_witness or tx_witness) in ('segwit', 'p2sh-segwit')
+    TxT = RecordOf(Transaction, version=Bytes(4), locktime=Int(0, 2 ** 32 - 1), witness_type=Const(tx_witness), size=Const(None),
+                   inputs=FixedList(_InRec if use_segwit else _InRecLegacy, 1), outputs=FixedList(_OutRec, 1))
+
+    def init(self):
+        self.inputs[0].index_n = 0
+
+    def requires(self):
+        x = self.inputs[0]
+        return len(x.redeemscript) > 0 and x.redeemscript != b'\x00' and x.locking_script != b'\x00' and self.outputs[0].lock_script != b'\x00'
+
+    def result_is(self):
+        x = self.inputs[0]
+        v = int.from_bytes(self.version, 'big')
+        if use_segwit:
+            pre = sighash.bip143_preimage(v, _abstract_inputs(self), _abstract_outputs(self), self.locktime, 0, x.redeemscript, x.value, 1)
+        else:
+            pre = sighash.legacy_all_preimage(v, _abstract_inputs(self), _abstract_outputs(self), self.locktime, 0, x.locking_script)
+        return sighash.dsha(pre)
+
+    d = {'params': {'self': TxT}, 'kwargs': {'sign_id': 0, 'hash_type': 1, 'witness_type': arg_witness}, 'init': init, 'requires': requires,
+         'result_is': result_is, 'prepare': lambda self: {'self': _real_tx(self)},
+         '__doc__': 'signature_hash(0, SIGHASH_ALL, %r) on a %s transaction is the double-SHA256 of the %s preimage'
+                    % (arg_witness, tx_witness, 'BIP143' if use_segwit else 'legacy')}
+    return contract('bitcoinlib.transactions.Transaction.signature_hash', case=name, props=('C01', 'C02'))(type(name, (), d))
+
+
+DISPATCH_CASES = [_sighash_case(a, b)._contract.key for a, b in [('segwit', None), ('segwit', 'segwit'), ('segwit', 'p2sh-segwit'),
+                                                                 ('segwit', 'legacy'), ('legacy', None), ('legacy', 'legacy')]]
